@@ -199,7 +199,7 @@ pub fn random_batches(opts: &Opts, out: &mut Out, rng: &mut rand_chacha::ChaCha1
         let nodd = match pick(rng, 10) { 0..=3 => 0, 4..=8 => 1, _ => 2 };
         for _ in 0..nodd {
             let pos = pick(rng, k);
-            let base = pool[ms[pos] % pool.len()].clone();
+            let base = if ms[pos] < pool.len() { pool[ms[pos]].clone() } else { made[ms[pos] - pool.len()].clone() };
             let kind = pick(rng, 8);
             let odd: Option<Tmpl> = match kind {
                 0 => reissue(&base, [1usize, 2, 4, 8, 16, 32, 64][pick(rng, 7)], [1usize, 2][pick(rng, 2)]),
@@ -227,7 +227,7 @@ pub fn random_batches(opts: &Opts, out: &mut Out, rng: &mut rand_chacha::ChaCha1
                 6 => Some(make_invalid(&base, pick(rng, 4))),
                 _ => {
                     // the proof of another member with the same shape
-                    let o: Vec<usize> = (0..pool.len()).filter(|i| *i != ms[pos] % pool.len() && pool[*i].inst.n == n && pool[*i].inst.t == t && pool[*i].inst.m == base.inst.m && pool[*i].ped == 0).collect();
+                    let o: Vec<usize> = (0..pool.len()).filter(|i| *i != ms[pos] && pool[*i].proof.to_bytes() != base.proof.to_bytes() && pool[*i].inst.n == n && pool[*i].inst.t == t && pool[*i].inst.m == base.inst.m && pool[*i].ped == 0).collect();
                     if o.is_empty() {
                         None
                     } else {
